@@ -10,8 +10,18 @@ import (
 // Public keys are abstract identities (see engine/sym/crypto.go): a key is created by decoding a symbolic
 // blob assumed valid; distinct blobs may or may not denote the same key.
 
+// c23Blob is a symbolic 4-byte key encoding in the engine; natively (replay) the encoding of a fresh real key.
+func c23Blob(tag string) []byte {
+	b := nondetBytes(tag, 4)
+	if !engineOnly() {
+		_, pub, _ := keypair.GenerateKeyPair(keypair.PK_ECDSA, keypair.P256)
+		return keypair.SerializePublicKey(pub)
+	}
+	return b
+}
+
 func c23Key(tag string) keypair.PublicKey {
-	k, err := keypair.DeserializePublicKey(nondetBytes(tag, 4))
+	k, err := keypair.DeserializePublicKey(c23Blob(tag))
 	assume(err == nil)
 	return k
 }
@@ -119,4 +129,76 @@ func Harness_C23_bytes() {
 	}
 	_, perr := GetParamInfo(prog)
 	_ = perr
+}
+
+// ---- boundary harnesses (key counts 14..17) ----
+
+func c23Num(x int) []byte {
+	if x == 0 {
+		return []byte{byte(neovm.PUSH0)}
+	}
+	if x <= 16 {
+		return []byte{byte(neovm.PUSH1) + byte(x-1)}
+	}
+	return []byte{1, byte(x)} // PUSHBYTES1 x  (x < 128)
+}
+
+// Harness_C23_boundary: a reference-built CHECKMULTISIG script with n in 14..17 valid key blobs and any
+// threshold 0..18 is accepted iff 1 <= m <= n <= 16, and then parses to exactly those keys in order.
+func Harness_C23_boundary() {
+	n := param("minn") + nondetRange("n", 18-param("minn"))
+	m := nondetRange("m", 19)
+	var keys []keypair.PublicKey
+	var s []byte
+	s = append(s, c23Num(m)...)
+	for i := 0; i < n; i++ {
+		blob := c23Blob("blob")
+		k, err := keypair.DeserializePublicKey(blob)
+		assume(err == nil)
+		keys = append(keys, k)
+		s = append(s, byte(len(blob)))
+		s = append(s, blob...)
+	}
+	s = append(s, c23Num(n)...)
+	s = append(s, byte(neovm.CHECKMULTISIG))
+	info, err := GetProgramInfo(s)
+	want := 1 <= m && m <= n && n >= 2 && n <= 16
+	assert((err == nil) == want, "boundary-accepted-iff-params-valid")
+	if err != nil {
+		return
+	}
+	assert(int(info.M) == m, "boundary-threshold")
+	assert(len(info.PubKeys) == n, "boundary-key-count")
+	if len(info.PubKeys) == n {
+		for i := range keys {
+			assert(keypair.ComparePublicKey(info.PubKeys[i], keys[i]), "boundary-keys-in-order")
+		}
+	}
+}
+
+// Harness_C23_max: the builder at the largest key counts (keys assumed given in canonical order, see
+// spec stub keysort=presorted): built iff valid, and the script parses back to the same keys/threshold.
+func Harness_C23_max() {
+	n := param("minn") + nondetRange("n", 18-param("minn"))
+	ks := c23Keys(n)
+	orig := append([]keypair.PublicKey{}, ks...)
+	m := nondetRange("m", 19)
+	prog, err := ProgramFromMultiPubKey(ks, m)
+	okParams := 1 <= m && m <= n && n > 1 && n <= 16
+	assert((err == nil) == okParams, "max-built-iff-params-valid")
+	if err != nil {
+		return
+	}
+	info, perr := GetProgramInfo(prog)
+	assert(perr == nil, "max-script-parses")
+	if perr != nil {
+		return
+	}
+	assert(int(info.M) == m, "max-threshold-preserved")
+	assert(len(info.PubKeys) == n, "max-key-count-preserved")
+	if len(info.PubKeys) == n {
+		for i := range orig {
+			assert(keypair.ComparePublicKey(info.PubKeys[i], orig[i]), "max-keys-preserved")
+		}
+	}
 }
